@@ -191,7 +191,7 @@ int main(int argc, char** argv) {
       if (c.capped) return;
       if (i == n) {
         if (!c.mine(idx++)) return;
-        if ((idx & 1023) == 0 && c.out_of_time()) return;
+        if (c.tick(256)) return;
         Case cs{(int)ci, types, dst, pad};
         int r = run_case(cs);
         if (r == 0) report(cs); else if (r == 1) c.sample(std::string(cvs[ci].name) + " " + cs.str(), 6); else if (r == 2) c.n("skipped_invalid")++;
